@@ -75,13 +75,13 @@ mech("oneof-flatten-codec",
  "oneof_config{flatten:true}: flattened variant fields are not restored on decode (own output rejected / variant changed)",
  [("C01","deliver/body/oneof_flatten/*",["handler-not-reached","client-error","request-changed","response-changed"],None),
   ("C04","codec/oneof_flatten/*",["decode-own-output","canon-changed","roundtrip-changed","canon-decode-error"],None),
-  ("C05","json/oneof_flatten/*",J5,None),("C05","json/*/ctx=disc_flatten/*",J5,None),
+  ("C05","json/oneof_flatten/*",J5,None,"*/disc"),("C05","json/*/ctx=disc_flatten/*",J5,None,"*/disc"),
   ("C07","tstype/oneof_flatten/*",["undeclared-property","missing-property","wrong-type","literal-mismatch"],None),("C07","tstype/*/ctx=disc_flatten/*",["undeclared-property","missing-property","wrong-type","literal-mismatch"],None)])
 
 mech("enum-value-not-applied",
  "enum_value custom JSON strings are only attached to the enum type's MarshalJSON, which protojson never calls: messages still carry proto enum names while OpenAPI and TypeScript publish the custom strings",
  [("C04","codec/enum_value/*",["canon-decode-error","canon-changed"],None),("C05","json/enum_value/*",J5,None),
-  ("C06","oasjson/enum_value/*",["wire-json-violates-openapi"],"enum*"),("C07","tstype/enum_value/*",["literal-mismatch"],None)])
+  ("C06","oasjson/enum_value/*",["wire-json-violates-openapi"],"role:enum*"),("C07","tstype/enum_value/*",["literal-mismatch"],None)])
 
 mech("enum-number-not-implemented",
  "enum_encoding=NUMBER is not implemented by the Go codecs (names are sent) although OpenAPI/TypeScript publish integers",
@@ -95,12 +95,12 @@ mech("nested-annotations-ignored",
 
 mech("disc-oneof-variant-codec",
  "discriminated oneof (oneof_config): variants are encoded/decoded with encoding/json instead of protojson, so inside a variant 64-bit integers are numbers, keys are Go/snake names, enums are numbers and well-known types lose their JSON form; contract-form variants are rejected",
- [("C05","json/*/ctx=disc_nested/*",J5,None),("C05","json/oneof_nested/*",J5,None),("C04","codec/oneof_nested/*",["roundtrip-changed","decode-own-output","canon-changed","canon-decode-error"],None),
+ [("C05","json/*/ctx=disc_nested/*",J5,None,"*/disc"),("C05","json/oneof_nested/*",J5,None,"*/disc"),("C04","codec/oneof_nested/*",["roundtrip-changed","decode-own-output","canon-changed","canon-decode-error"],None),
   ("C06","oasjson/oneof_nested/*",["wire-json-violates-openapi"],None),("C01","deliver/body/oneof_nested/*",["request-changed","response-changed","handler-not-reached","client-error"],None)])
 
 mech("unwrap-empty-list-null",
  "unwrap: an empty unwrapped list is encoded as JSON null instead of []",
- [("C05","json/unwrap/*/ctx=top/dir=resp*",["wrong-json-type"],None),("C06","oasjson/unwrap/*",["wire-json-violates-openapi"],"type*"),("C07","tstype/unwrap/*",["wrong-type","null-not-allowed"],None)])
+ [("C05","json/unwrap/*/ctx=top/dir=resp*",["wrong-json-type"],None),("C06","oasjson/unwrap/*",["wire-json-violates-openapi"],"role:type*"),("C07","tstype/unwrap/*",["wrong-type","null-not-allowed"],None)])
 
 mech("unwrap-of-root-unwrap",
  "a repeated unwrap field whose element type is itself a root-unwrap (map) message: emitted *_unwrap.pb.go does not compile",
@@ -127,15 +127,15 @@ mech("ts-server-query-binding",
 
 mech("non-finite-floats-vs-schema",
  "NaN/Infinity are sent as JSON strings (proto3 JSON) and as bare words in URLs while OpenAPI declares type number",
- [("C06","oasjson/*@*{nan,inf,-inf,list-all-classes}*",["wire-json-violates-openapi"],"type*"),("C06","oasparam/*@{nan,inf,-inf}",["wire-json-violates-openapi"],"type*")])
+ [("C06","oasjson/*@*{nan,inf,-inf,list-all-classes}*",["wire-json-violates-openapi"],"role:type*"),("C06","oasparam/*@{nan,inf,-inf}",["wire-json-violates-openapi"],"role:type*")])
 
 mech("wkt-schema-as-object",
  "well-known types other than Timestamp (Duration, …) are published as objects of their proto fields while the wire uses their proto3 JSON string form",
- [("C06","oasjson/none/messages/*",["wire-json-violates-openapi"],"type*")])
+ [("C06","oasjson/none/messages/*",["wire-json-violates-openapi"],"role:type*")])
 
 mech("nullable-enum-schema",
  "nullable enum: schema allows type null but its enum list lacks null",
- [("C06","oasjson/nullable/enum/*",["wire-json-violates-openapi"],"enum*")])
+ [("C06","oasjson/nullable/enum/*",["wire-json-violates-openapi"],"role:enum*")])
 
 mech("oneof-flatten-schema",
  "flattened discriminated oneof: schema requires a variant (oneOf) and camelCase keys while the server sends snake_case child keys and nothing when no variant is set",
@@ -294,12 +294,15 @@ def emit():
     for prop,commit,case,sym,what in FIXED:
         out.append(json.dumps({"property":prop,"status":"fixed","commit":commit,"case":case,"symptom":sym,"what":f"fixed: property={prop} {commit} {what}"},ensure_ascii=False))
     for mid,(what,rows) in M.items():
-        for prop,case,syms,detail in rows:
+        for row in rows:
+            prop,case,syms,detail=row[:4]
+            notd=row[4] if len(row)>4 else None
             plain=[s for s in syms if ":" not in s]
             special=[s for s in syms if ":" in s]
             if plain:
                 e={"property":prop,"status":"open","mechanism":mid,"case":case,"symptom":"|".join(plain),"what":what}
                 if detail: e["detail"]=detail
+                if notd: e["not_detail"]=notd
                 out.append(json.dumps(e,ensure_ascii=False))
             for s in special:
                 s,d=s.split(":",1)
